@@ -1,0 +1,35 @@
+//go:build verif
+
+package tls
+
+import "errors"
+
+// ZVC34SendKeyUpdate makes c behave like a peer implementation that initiates
+// TLS 1.3 key updates (OpenSSL, BoringSSL, ...; this library never does so by
+// itself): it sends a KeyUpdate message (RFC 8446, section 4.6.3), with or
+// without update_requested, and switches the sending traffic secret, as one
+// critical section of the output half (verification hook, C34). The handshake
+// of c must be complete.
+func ZVC34SendKeyUpdate(c *Conn, updateRequested bool) error {
+	if !c.handshakeComplete() || c.vers != VersionTLS13 {
+		return errors.New("tls: ZVC34SendKeyUpdate needs a completed TLS 1.3 handshake")
+	}
+	suite := cipherSuiteTLS13ByID(c.cipherSuite)
+	if suite == nil {
+		return errors.New("tls: ZVC34SendKeyUpdate: unknown cipher suite")
+	}
+	c.out.Lock()
+	defer c.out.Unlock()
+	if c.out.err != nil {
+		return c.out.err
+	}
+	if c.closeNotifySent {
+		return errShutdown
+	}
+	msg := &keyUpdateMsg{updateRequested: updateRequested}
+	if _, err := c.writeRecordLocked(recordTypeHandshake, msg.marshal()); err != nil {
+		return err
+	}
+	c.out.setTrafficSecret(suite, suite.nextTrafficSecret(c.out.trafficSecret))
+	return nil
+}
